@@ -305,6 +305,7 @@ impl EditConfig {
             if range.contains('-') {
                 let (start, end) = EditConfig::range_string_to_tuple(range)?;
                 ensure!(end < rpus.len(), "invalid end range {}", end);
+                ensure!(start <= end, "invalid range {}", range);
 
                 amount += end - start + 1;
                 rpus[start..=end].iter_mut().for_each(|e| *e = None);
@@ -436,9 +437,10 @@ impl EditConfig {
         for edit in edits {
             let (start, end) = EditConfig::range_string_to_tuple(edit.0)?;
 
-            if end > rpus.len() {
-                bail!("Invalid range: {} > {} available RPUs", end, rpus.len());
+            if end >= rpus.len() {
+                bail!("Invalid range: {} >= {} available RPUs", end, rpus.len());
             }
+            ensure!(start <= end, "Invalid range: {}", edit.0);
 
             for rpu in rpus[start..=end].iter_mut().filter_map(|e| e.as_mut()) {
                 if let Some(vdr_dm_data) = rpu.vdr_dm_data.as_mut() {
@@ -537,9 +539,10 @@ impl ActiveArea {
                 let (start, end) = EditConfig::range_string_to_tuple(edit.0)?;
                 let preset_id = *edit.1;
 
-                if end > rpus.len() {
-                    bail!("Invalid range: {} > {} available RPUs", end, rpus.len());
+                if end >= rpus.len() {
+                    bail!("Invalid range: {} >= {} available RPUs", end, rpus.len());
                 }
+                ensure!(start <= end, "Invalid range: {}", edit.0);
 
                 if let Some(active_area_offsets) = presets.iter().find(|e| e.id == preset_id) {
                     for rpu in rpus[start..=end].iter_mut().filter_map(|e| e.as_mut()) {
